@@ -1,8 +1,8 @@
 #!/bin/sh
-# usage: mutant_run2.sh <n>  — second operator set (MUTATE_SET=2): applies mutation n to a scratch copy and classifies it:
+# usage: mutant_run2.sh <n>  — second operator set (MUTATE_SET=${MUTATE_SET:-2}): applies mutation n to a scratch copy and classifies it:
 #   nocompile | detected:<props> (checker first; tests not run) | killed (checker silent, tests fail) | SURVIVED
 n=$1
-export GOFLAGS=-mod=mod GOPROXY=off GOSUMDB=off GOTOOLCHAIN=local MUTATE_SET=2; unset GOWORK
+export GOFLAGS=-mod=mod GOPROXY=off GOSUMDB=off GOTOOLCHAIN=local MUTATE_SET=${MUTATE_SET:-2}; unset GOWORK
 bin=${WTCHECK:-/verif/bin/wtcheck}
 d=$(mktemp -d /tmp/wtmu.XXXXXX); trap 'rm -rf "$d"' EXIT
 git -C /repo archive HEAD | tar -x -C "$d"
